@@ -239,6 +239,37 @@ func (s *Svc) Boom(ctx context.Context, tok string, kind int) (string, error) {
 	return Reply(tok), nil
 }
 
+var barrierMu sync.Mutex
+var barriers = map[string]*barrier{}
+
+type barrier struct {
+	n  int
+	ch chan struct{}
+}
+
+// BoomBarrier waits until n handlers of the same group have arrived (or 2 s), then all panic together.
+func (s *Svc) BoomBarrier(ctx context.Context, tok string, kind int, group string, n int) (string, error) {
+	r, _ := s.enter(ctx, "BoomBarrier", tok)
+	defer s.exit(ctx, r)
+	barrierMu.Lock()
+	b := barriers[group]
+	if b == nil {
+		b = &barrier{ch: make(chan struct{})}
+		barriers[group] = b
+	}
+	b.n++
+	if b.n == n {
+		close(b.ch)
+	}
+	barrierMu.Unlock()
+	select {
+	case <-b.ch:
+	case <-time.After(2 * time.Second):
+	}
+	DoPanic(kind, tok)
+	return Reply(tok), nil
+}
+
 // BoomAfterCancel panics only once its context has been cancelled (the caller is still waiting).
 func (s *Svc) BoomAfterCancel(ctx context.Context, tok string, kind int) (string, error) {
 	r, _ := s.enter(ctx, "BoomAfterCancel", tok)
@@ -381,6 +412,64 @@ func (s *Svc) Sub(ctx context.Context, tok string, n int, mode int) (<-chan Item
 	return ch, nil
 }
 
+// RevN is a notification whose handler makes k reverse calls (outcome recorded in Note).
+func (s *Svc) RevN(ctx context.Context, tok string, k int) error {
+	r, _ := s.enter(ctx, "RevN", tok)
+	defer s.exit(ctx, r)
+	rc, ok := jsonrpc.ExtractReverseClient[RevAPI](ctx)
+	if !ok {
+		return nil
+	}
+	for i := 0; i < k; i++ {
+		t := fmt.Sprintf("%s.r%d", tok, i)
+		v, err := rc.Ident(ctx, t)
+		s.mu.Lock()
+		r.Note += fmt.Sprintf("[%s -> %q err=%v]", t, v, err)
+		s.mu.Unlock()
+	}
+	return nil
+}
+
+// RevSpam keeps sending reverse notifications until one fails (or 20 000 were sent).
+func (s *Svc) RevSpam(ctx context.Context, tok string, how int) (int, error) {
+	r, _ := s.enter(ctx, "RevSpam", tok)
+	defer s.exit(ctx, r)
+	rc, ok := jsonrpc.ExtractReverseClient[RevAPI](ctx)
+	if !ok {
+		return 0, nil
+	}
+	n := 0
+	for ; n < 20000; n++ {
+		var err error
+		switch how {
+		case 1:
+			err = rc.NotePingNC(tok) // no context at all: only the library's own failure path can end it
+		case 2:
+			err = rc.NotePing(context.Background(), tok)
+		default:
+			err = rc.NotePing(ctx, tok)
+		}
+		if err != nil {
+			s.mu.Lock()
+			r.Note = fmt.Sprintf("stopped after %d: %v", n, err)
+			s.mu.Unlock()
+			return n, nil
+		}
+	}
+	return n, nil
+}
+
+// RevNoteBack sends one reverse notification whose client-side handler calls forward again.
+func (s *Svc) RevNoteBack(ctx context.Context, tok string) (string, error) {
+	r, _ := s.enter(ctx, "RevNoteBack", tok)
+	defer s.exit(ctx, r)
+	rc, ok := jsonrpc.ExtractReverseClient[RevAPI](ctx)
+	if !ok {
+		return "NOREV", nil
+	}
+	return "sent", rc.NoteBack(ctx, tok)
+}
+
 // RevAPI is the reverse-client proxy struct the server uses to call back.
 type RevAPI struct {
 	Ident  func(ctx context.Context, tok string) (string, error)
@@ -389,6 +478,11 @@ type RevAPI struct {
 	RFail  func(ctx context.Context, tok string) (string, error)
 	RHold  func(ctx context.Context, tok string) (string, error)
 	RBoom  func(ctx context.Context, tok string, kind int) (string, error)
+	// notification-tagged reverse methods
+	NotePing func(ctx context.Context, tok string) error `notify:"true"`
+	NoteBack func(ctx context.Context, tok string) error `notify:"true"`
+	// the same notification through a proxy field without a context parameter
+	NotePingNC func(tok string) error `notify:"true" rpc_method:"R.NotePing"`
 }
 
 // Rev calls back k times into the client that issued this call.
@@ -447,9 +541,13 @@ type Client struct {
 	Boom            func(ctx context.Context, tok string, kind int) (string, error)
 	BoomNote        func(ctx context.Context, tok string, kind int) error `notify:"true"`
 	BoomAfterCancel func(ctx context.Context, tok string, kind int) (string, error)
+	BoomBarrier     func(ctx context.Context, tok string, kind int, group string, n int) (string, error)
 	BoomSub         func(ctx context.Context, tok string, kind int) (<-chan Item, error)
 	Sub             func(ctx context.Context, tok string, n int, mode int) (<-chan Item, error)
 	Rev             func(ctx context.Context, tok string, k int, which int) (string, error)
+	RevN            func(ctx context.Context, tok string, k int) error `notify:"true"`
+	RevSpam         func(ctx context.Context, tok string, how int) (int, error)
+	RevNoteBack     func(ctx context.Context, tok string) (string, error)
 	React           func(ctx context.Context, tok string, delayMs int, size int) (string, error)
 	ReactN          func(ctx context.Context, tok string, delayMs int) error `notify:"true"`
 	SubInt          func(ctx context.Context, tok string, n int, mode int) (<-chan int, error)
@@ -461,7 +559,27 @@ type Client struct {
 // RevHandler is the client-side handler object for reverse calls.
 type RevHandler struct {
 	Identity string
-	S        *Svc // records entries by token
+	S        *Svc    // records entries by token
+	Fwd      *Client // the client's own forward proxy (for handlers that call forward again)
+}
+
+func (h *RevHandler) NotePing(ctx context.Context, tok string) error {
+	atomic.AddInt64(&h.S.total, 1)
+	return nil
+}
+
+// NoteBack: a reverse notification whose handler makes a forward call.
+func (h *RevHandler) NoteBack(ctx context.Context, tok string) error {
+	r, _ := h.S.enter(ctx, "NoteBack", tok)
+	defer h.S.exit(ctx, r)
+	if h.Fwd == nil {
+		return nil
+	}
+	v, err := h.Fwd.Echo(context.Background(), tok+".f", "")
+	h.S.mu.Lock()
+	r.Note = fmt.Sprintf("forward -> %q err=%v", v, err)
+	h.S.mu.Unlock()
+	return nil
 }
 
 func (h *RevHandler) Ident(ctx context.Context, tok string) (string, error) {
